@@ -486,7 +486,11 @@ def _main_run(mod, a, seed):
                 viol.append((-1, data["case"], v))
 
     # determinism spot check: re-execute a sample of own cases, digests must agree
-    recheck = [i for i in sorted(results_digest) if splitmix64(seed * 1000003 + i) % 50 == 0][:8]
+    # (cases that reported a violation are re-executed anyway when they are minimised and reproduced; a library that
+    # misbehaves non-deterministically - say, a memory address in a version - must surface as that violation, not as
+    # a harness error)
+    violating = set(i for i, _, _ in viol)
+    recheck = [i for i in sorted(results_digest) if splitmix64(seed * 1000003 + i) % 50 == 0 and i not in violating][:8]
     for i in recheck:
         r = _worker_run((mod.__name__, cases[i]))
         if not r["ok"] or r["res"].get("digest") != results_digest[i]:
